@@ -10,6 +10,8 @@
  *   h_crc zeros SEED LEN        one call over LEN zero bytes (untouched anonymous memory, so any LEN is cheap) from several non-zero
  *                               states, whole and in two pieces; reference = the one-zero-byte step raised to the LEN-th power
  *                               (16x16 matrix over GF(2), repeated squaring)
+ *   h_crc first K SEED          what the very first call of a process does must not matter: first call with K bytes (K = 0..3 and
+ *                               a few larger), then random buffers whole / split vs reference in the same process
  *   h_crc huge SEED LEN         one buffer of LEN bytes (LEN may exceed 2^32), whole and 2-split, vs reference
  * Prints "MISMATCH ..." lines (at most 20) and one "SUMMARY ..." line.
  */
@@ -149,6 +151,26 @@ int main(int argc, char **argv)
 			if (sp != want) report("echo-split-at-prefix", c, p, n, off, sp, want);
 			++cases; ++splits;
 		}
+	} else if (!strcmp(argv[1], "first")) {
+		size_t k0 = (size_t) atoi(argv[2]); unsigned it; uint8_t first[64]; uint16_t c = 0, want;
+		uint8_t *arena = malloc(5000);
+		sm_state = strtoull(argv[3], NULL, 10);
+		memset(first, 0x31, sizeof first);
+		lha_crc16_buf(&c, k0 ? first : NULL, k0);
+		want = ref_buf(0, first, k0);
+		if (c != want) report("first-call", 0, first, k0, 0, c, want);
+		for (it = 0; it < 3000; ++it) {
+			size_t len = it < 40 ? it : (size_t) (sm() % 4097), i, cut; uint16_t c0 = (uint16_t) sm(), whole, sp;
+			for (i = 0; i < len; i += 8) { uint64_t x = sm(); memcpy(arena + i, &x, len - i < 8 ? len - i : 8); }
+			want = ref_buf(c0, arena, len);
+			whole = c0; lha_crc16_buf(&whole, arena, len);
+			if (whole != want) report("after-short-first-call-whole", c0, arena, len, 0, whole, want);
+			cut = len ? (size_t) (sm() % (len + 1)) : 0;
+			sp = c0; lha_crc16_buf(&sp, arena, cut); lha_crc16_buf(&sp, arena + cut, len - cut);
+			if (sp != want) report("after-short-first-call-split", c0, arena, len, cut, sp, want);
+			++cases; ++splits;
+		}
+		free(arena);
 	} else if (!strcmp(argv[1], "zeros")) {
 		/* M[i] = image of basis vector i under "feed one zero byte" */
 		uint16_t M[16], P[16], R[16]; int i, j; unsigned long long n = strtoull(argv[3], NULL, 10), e;
